@@ -67,6 +67,24 @@ def sh(cmd, cwd=None, env=None, timeout=None, inp=None):
     return p.returncode, p.stdout.decode('utf-8', 'replace'), p.stderr.decode('utf-8', 'replace')
 
 
+def io_inventory_obligation(res, sides):
+    """T1: the file-system call sites of the source (tools/io_sites.py) against the reviewed classification spec/io_sites.json;
+    `sides`: which kinds of call the property at hand rests on ('read', 'write', 'metadata')"""
+    import sys, json
+    out = os.path.join(BUILD, 'io_sites.json')
+    rc, so, se = sh([sys.executable, os.path.join(VERIF, 'tools', 'io_sites.py'), REPO, out])
+    have = json.load(open(out)) if rc == 0 else []
+    spec = json.load(open(os.path.join(VERIF, 'spec', 'io_sites.json')))
+    key = lambda x: (x['file'], x['fn'], x['call'], x['args'], x['n'])
+    side_of = {key(x): x['side'] for x in spec}
+    hk, sk = {key(x) for x in have}, set(side_of)
+    # a site that is new is of unknown side: it concerns every property; one that vanished concerns the properties of its side
+    diff = sorted(k for k in hk - sk) + sorted(k for k in sk - hk if side_of[k] in sides)
+    res.extra_obligations.append((f'file-system call-site inventory ({"/".join(sides)}) matches the reviewed classification (spec/io_sites.json)',
+                                  rc == 0 and not diff, 'sites that differ: ' + '; '.join(f'{d[0]}:{d[1]}: {d[2]}{d[3][:60]}' for d in diff[:6])))
+    res.notes.append(f'{len(have)} file-system call sites inventoried, {len(diff)} differ from the classification')
+
+
 class Lock:
     def __init__(self, name='build'):
         os.makedirs(BUILD, exist_ok=True)
